@@ -97,10 +97,10 @@ func rulePolicy(cx *Ctx) {
 	const rAlive = "C05.alive"
 	const rTrans = "C05.transplant"
 	const rWin = "C07.window"
-	cx.R.Rule(rZero, 2, "every node handed to the eviction callback by the eviction loops is known non-zero-weight on that path, or dead, or heavier than the maximum; the window->probation transfer skips zero weights")
+	cx.R.Rule(rZero, 1, "every node handed to the eviction callback by the eviction loops is known non-zero-weight on that path, or dead, or heavier than the maximum; the window->probation transfer skips zero weights")
 	cx.R.Rule(rLoop, 1, "every eviction in evictFromMain happens in an iteration entered on the true edge of weightedSize > maximum (freshly re-read after each callback)")
-	cx.R.Rule(rOver, 3, "in add and in every queue case of update a node heavier than the maximum is handed to the eviction callback")
-	cx.R.Rule(rAcct, 5, "weightedSize accounting: add and update add the node's weight exactly once on every path (also for nodes that are no longer alive), makeDead subtracts it and marks the node dead exactly once under the not-dead guard, update releases the old node exactly once")
+	cx.R.Rule(rOver, 1, "in add and in every queue case of update a node heavier than the maximum is handed to the eviction callback")
+	cx.R.Rule(rAcct, 1, "weightedSize accounting: add and update add the node's weight exactly once on every path (also for nodes that are no longer alive), makeDead subtracts it and marks the node dead exactly once under the not-dead guard, update releases the old node exactly once")
 	cx.R.Rule(rAlive, 1, "policy.add links a node into a deque only on the alive edge (out-of-order adds are ignored)")
 	cx.R.Rule(rTrans, 1, "the update handler leaves the new node linked: it transplants the old node's position only when the old node is contained in its deque, otherwise the new node enters the window like a fresh one (or is evicted)")
 	cx.R.Rule(rWin, 1, "window->probation transfers happen only while windowWeightedSize > windowMaximum")
@@ -206,10 +206,12 @@ func rulePolicy(cx *Ctx) {
 				av.check("dead node not linked", pushes == 0 && evicted == 0, "a node that is no longer alive is neither linked nor evicted by add", fmt.Sprintf("%d push(es), %d eviction(s)", pushes, evicted), o)
 			} else if ak && alive {
 				heavy, hk := cmpAtom(o, "Weight(param:n)", ">", "load(param:p.maximum")
-				if hk && heavy {
+				if !hk {
+					ao.check("maximum consulted", false, "add compares the entry's weight with the maximum before linking it", "untested", o)
+				} else if heavy {
 					ao.check("oversized add evicted", evicted == 1 && pushes == 0, "an entry heavier than the maximum is evicted at once instead of being linked", fmt.Sprintf("%d push(es), %d eviction(s)", pushes, evicted), o)
 				} else {
-					av.check("alive node linked once", pushes == 1 && evicted == 0 && hk, "an alive entry within the maximum is linked into the window exactly once", fmt.Sprintf("%d push(es), %d eviction(s)", pushes, evicted), o)
+					av.check("alive node linked once", pushes == 1 && evicted == 0, "an alive entry within the maximum is linked into the window exactly once", fmt.Sprintf("%d push(es), %d eviction(s)", pushes, evicted), o)
 				}
 			} else {
 				av.check("liveness consulted", false, "add tests IsAlive before linking", "untested", o)
@@ -398,7 +400,7 @@ func rulePolicy(cx *Ctx) {
 // ruleDeque: structural obligations of the intrusive deque the policy relies on.
 func ruleDeque(cx *Ctx) {
 	const rule = "C05.deque"
-	cx.R.Rule(rule, 6, "deque.Linked: UpdateNode clears the replaced node's links, Delete clears the removed node's links and decrements len exactly once on the paths that unlink, pushes increment len once and link the node")
+	cx.R.Rule(rule, 2, "deque.Linked: UpdateNode clears the replaced node's links, Delete clears the removed node's links and decrements len exactly once on the paths that unlink, pushes increment len once and link the node")
 	for _, spec := range []opSpec{
 		{"UpdateNode", "Linked", "UpdateNode", nil, "dq", nil}, {"Delete", "Linked", "Delete", nil, "dq", nil},
 		{"PushBack", "Linked", "PushBack", nil, "dq", nil}, {"PushFront", "Linked", "PushFront", nil, "dq", nil},
@@ -496,7 +498,7 @@ func ruleDeque(cx *Ctx) {
 // ruleC04SetMax: SetMaximum stores and enforces the new maximum in one eviction-lock section.
 func ruleC04SetMax(cx *Ctx) {
 	const rule = "C04.setmax"
-	cx.R.Rule(rule, 3, "SetMaximum stores the new maximum and runs maintenance inside one eviction-lock section; maintenance replays the write buffer before it evicts")
+	cx.R.Rule(rule, 1, "SetMaximum stores the new maximum and runs maintenance inside one eviction-lock section; maintenance replays the write buffer before it evicts")
 	fn := cx.need(rule, "", "cache", "SetMaximum")
 	sms := cx.need(rule, "", "policy", "setMaximumSize")
 	maint := cx.need(rule, "", "cache", "maintenance")
@@ -507,9 +509,9 @@ func ruleC04SetMax(cx *Ctx) {
 	var lock, set, run, unlock ssa.Instruction
 	allInstrs(fn, func(in ssa.Instruction) {
 		switch {
-		case mutexOp(in, mu, "Lock"):
+		case lockLike(in, mu):
 			lock = in
-		case mutexOp(in, mu, "Unlock"):
+		case unlockLike(in, mu):
 			unlock = in
 		case isCallTo(in, sms):
 			set = in
@@ -566,7 +568,7 @@ func ruleC07CauseFlow(cx *Ctx) {
 				}
 				g := false
 				for _, gd := range guardsAt(u.Block()) {
-					if f := fieldOf(gd.Cond); f != nil && f.Name() == flag && gd.Truth {
+					if f := fieldOf(gd.Cond); f != nil && fname(f) == flag && gd.Truth {
 						g = true
 					}
 				}
@@ -574,7 +576,7 @@ func ruleC07CauseFlow(cx *Ctx) {
 					// early return form: if !flag { return }
 					for _, b := range u.Parent().Blocks {
 						if ifi, ok := b.Instrs[len(b.Instrs)-1].(*ssa.If); ok {
-							if f := fieldOf(ifi.Cond); f != nil && f.Name() == flag && cfgOf(u.Parent()).dominatedByEdge(edge{b, 0})[u.Block()] {
+							if f := fieldOf(ifi.Cond); f != nil && fname(f) == flag && cfgOf(u.Parent()).dominatedByEdge(edge{b, 0})[u.Block()] {
 								g = true
 							}
 						}
